@@ -127,6 +127,10 @@ def collect():
     flags.append(("NCID_EMPTY_CLOSES", any(isinstance(n, ast.If) and isinstance(n.test, ast.UnaryOp) and isinstance(n.test.op, ast.Not)
                                             and isinstance(n.test.operand, ast.Attribute) and n.test.operand.attr == "_peer_cid_available"
                                             and any(isinstance(b, ast.Raise) for b in n.body) for n in ast.walk(hn))))
+    # position and guard of the two caps of _handle_new_connection_id_frame (fails closed on any other shape):
+    # the model evaluates both caps on EVERY path of the handler, after everything that can grow the two lists
+    flags.append(("NCID_RETIRE_CAP_ONLY_WHEN_RAISED", _ncid_cap_shape(hn)))
+    _pin_cap_sites(conn)
     hs = _func(conn, "_handle_stream_frame")
     if hs is None:
         raise ValueError("C07 consts: _handle_stream_frame not found")
@@ -173,6 +177,31 @@ def collect():
     ec2 = _enum(pkt, "QuicErrorCode")
     out.append(("E_CRYPTO_ERROR", _int(ec2["CRYPTO_ERROR"], "CRYPTO_ERROR")))
     return out, opt, flags
+
+
+def caps():
+    """The documented caps of the peer-driven collections, read from the tree under test (module constants and the
+    literal assigned to _local_active_connection_id_limit; no shape probes, so this also works on a tree on which
+    collect() fails closed).  Used by the implementation oracle of harness/props/c07.py (never by the model)."""
+    src = os.path.join(REPO, "src", "aioquic")
+    conn = ast.parse(open(os.path.join(src, "quic", "connection.py")).read())
+    ma = _module_assigns(conn)
+    d = {}
+    for name in MODULE_CONSTS:
+        if name not in ma:
+            raise ValueError("C07 consts: %s missing in connection.py" % name)
+        d[name] = _int(ma[name], name)
+    for n in ast.walk(conn):
+        if (isinstance(n, ast.Assign) and len(n.targets) == 1 and isinstance(n.targets[0], ast.Attribute)
+                and n.targets[0].attr == "_local_active_connection_id_limit"):
+            d["LOCAL_ACTIVE_CID_LIMIT"] = _int(n.value, "_local_active_connection_id_limit")
+    if "LOCAL_ACTIVE_CID_LIMIT" not in d:
+        raise ValueError("C07 consts: _local_active_connection_id_limit not found")
+    d["NETWORK_PATHS_CAP"] = _int(ma["MAX_NETWORK_PATHS"], "MAX_NETWORK_PATHS") if "MAX_NETWORK_PATHS" in ma else None
+    mt = _module_assigns(ast.parse(open(os.path.join(src, "tls.py")).read()))
+    d["TLS_MESSAGE_CAP"] = (_int(mt["MAX_HANDSHAKE_MESSAGE_SIZE"], "MAX_HANDSHAKE_MESSAGE_SIZE")
+                            if "MAX_HANDSHAKE_MESSAGE_SIZE" in mt else None)
+    return d
 
 
 _FIELD_CODE = {"value": 0, "sent": 1, "used": 2, "max_stream_data_local": 0, "max_stream_data_local_sent": 1}
@@ -250,6 +279,153 @@ def _raise_before_frame(fn, attr, fname):
             raise ValueError("C07 consts: %s assigns .%s outside the block that writes the frame" % (fname, attr))
         return False
     raise ValueError("C07 consts: %s assigns .%s on both sides of start_frame()" % (fname, attr))
+
+
+def _expr(src):
+    return ast.dump(ast.parse(src, mode="eval").body)
+
+
+def _is_self_attr(n, attr):
+    return isinstance(n, ast.Attribute) and n.attr == attr and isinstance(n.value, ast.Name) and n.value.id == "self"
+
+
+def _mentions_attr(n, attr):
+    return any(isinstance(m, ast.Attribute) and m.attr == attr for m in ast.walk(n))
+
+
+def _raises_code(ifnode, code):
+    """the body of this `if` is a single `raise QuicConnectionError(error_code=QuicErrorCode.<code>, ...)`, no else"""
+    if ifnode.orelse or len(ifnode.body) != 1 or not isinstance(ifnode.body[0], ast.Raise):
+        return False
+    exc = ifnode.body[0].exc
+    if not (isinstance(exc, ast.Call) and isinstance(exc.func, ast.Name) and exc.func.id == "QuicConnectionError"):
+        return False
+    kw = {k.arg: k.value for k in exc.keywords}
+    return "error_code" in kw and _attr_chain(kw["error_code"]) == ["QuicErrorCode", code]
+
+
+def _ncid_cap_shape(hn):
+    """Where and under which condition _handle_new_connection_id_frame evaluates its two caps.
+    Shape the model has (-> False): both checks are statements of the function body itself (not nested in a branch or
+    loop), their tests are exactly
+        1 + len(self._peer_cid_available) > self._local_active_connection_id_limit
+        len(self._retire_connection_ids) > min(self._local_active_connection_id_limit * 4, MAX_PENDING_RETIRES)
+    each raises CONNECTION_ID_LIMIT_ERROR, every statement of the handler that can grow the list in question
+    (self._retire_peer_cid(...), self.change_connection_id(), retire.append/insert, ..._retire_connection_ids.append /
+    _peer_cid_available.append / assignment) comes before the check, and there is no `return` in the handler: the caps
+    are evaluated on every path that does not close the connection, the late-arrival path included.
+    Recognised variant (-> True; the model then skips the retirement cap exactly as the code does and buffer_bounded
+    stops checking): the retirement cap is `<g> and <the test above>` where <g> is assigned once, at the top level,
+    `<g> = retire_prior_to > self._peer_retire_prior_to`, before _peer_retire_prior_to is updated.
+    Anything else: ValueError (fail closed)."""
+    F = "_handle_new_connection_id_frame"
+    want_retire = _expr("len(self._retire_connection_ids) > min(self._local_active_connection_id_limit * 4, MAX_PENDING_RETIRES)")
+    want_active = _expr("1 + len(self._peer_cid_available) > self._local_active_connection_id_limit")
+    if any(isinstance(n, ast.Return) for n in ast.walk(hn)):
+        raise ValueError("C07 consts: %s has a return statement (a cap could be skipped)" % F)
+    top = {id(n) for n in hn.body}
+
+    def the_if(attr, what):
+        hits = [n for n in ast.walk(hn) if isinstance(n, ast.If) and any(
+                    isinstance(m, ast.Call) and isinstance(m.func, ast.Name) and m.func.id == "len" and _mentions_attr(m, attr)
+                    for m in ast.walk(n.test))]
+        if len(hits) != 1:
+            raise ValueError("C07 consts: %s: expected exactly one check of %s, found %d" % (F, what, len(hits)))
+        if id(hits[0]) not in top:
+            raise ValueError("C07 consts: %s: the check of %s is nested inside another statement" % (F, what))
+        if not _raises_code(hits[0], "CONNECTION_ID_LIMIT_ERROR"):
+            raise ValueError("C07 consts: %s: the check of %s does not just raise CONNECTION_ID_LIMIT_ERROR" % (F, what))
+        return hits[0]
+
+    def grow_sites(kind):
+        out = []
+        for n in ast.walk(hn):
+            if isinstance(n, ast.Call) and isinstance(n.func, ast.Attribute):
+                f = n.func
+                if kind == "retire":
+                    if _is_self_attr(f, "_retire_peer_cid") or _is_self_attr(f, "change_connection_id"):
+                        out.append(n.lineno)
+                    if f.attr in ("append", "insert", "extend") and (
+                            (isinstance(f.value, ast.Name) and f.value.id == "retire") or _is_self_attr(f.value, "_retire_connection_ids")):
+                        out.append(n.lineno)
+                else:
+                    if f.attr in ("append", "insert", "extend") and _is_self_attr(f.value, "_peer_cid_available"):
+                        out.append(n.lineno)
+            tg = n.targets if isinstance(n, ast.Assign) else ([n.target] if isinstance(n, (ast.AugAssign, ast.AnnAssign)) else [])
+            for t in tg:
+                if _is_self_attr(t, "_retire_connection_ids" if kind == "retire" else "_peer_cid_available"):
+                    out.append(n.lineno)
+        return out
+
+    ia = the_if("_peer_cid_available", "the number of active connection IDs")
+    # (the `if not self._peer_cid_available: raise PROTOCOL_VIOLATION` of NCID_EMPTY_CLOSES is nested, has no len())
+    if ast.dump(ia.test) != want_active:
+        raise ValueError("C07 consts: %s: unknown test of the active connection ID cap" % F)
+    if not all(l < ia.lineno for l in grow_sites("active")):
+        raise ValueError("C07 consts: %s: _peer_cid_available can grow after its cap was checked" % F)
+    ir = the_if("_retire_connection_ids", "the number of pending retirements")
+    if not grow_sites("retire") or not all(l < ir.lineno for l in grow_sites("retire")):
+        raise ValueError("C07 consts: %s: _retire_connection_ids can grow after its cap was checked" % F)
+    if ast.dump(ir.test) == want_retire:
+        return False
+    t = ir.test
+    if (isinstance(t, ast.BoolOp) and isinstance(t.op, ast.And) and len(t.values) == 2 and isinstance(t.values[0], ast.Name)
+            and ast.dump(t.values[1]) == want_retire):
+        g = t.values[0].id
+        defs = [n for n in ast.walk(hn) if isinstance(n, (ast.Assign, ast.AugAssign, ast.AnnAssign))
+                and any(isinstance(x, ast.Name) and x.id == g
+                        for x in (n.targets if isinstance(n, ast.Assign) else [n.target]))]
+        upd = [n.lineno for n in ast.walk(hn) if isinstance(n, (ast.Assign, ast.AugAssign))
+               and any(_is_self_attr(x, "_peer_retire_prior_to") for x in (n.targets if isinstance(n, ast.Assign) else [n.target]))]
+        if (len(defs) == 1 and isinstance(defs[0], ast.Assign) and id(defs[0]) in top
+                and ast.dump(defs[0].value) == _expr("retire_prior_to > self._peer_retire_prior_to")
+                and upd and all(defs[0].lineno < l for l in upd)):
+            return True
+    raise ValueError("C07 consts: %s: unknown guard on the cap of pending retirements" % F)
+
+
+def _pin_cap_sites(conn):
+    """The other caps of buffer_bounded: every statement of connection.py that grows a capped collection sits where the
+    model has it, next to its cap (fails closed otherwise; no constant is emitted)."""
+    # remote_challenges: every append is the single statement guarded by `len(...) < MAX_REMOTE_CHALLENGES`
+    want = _expr("len(context.network_path.remote_challenges) < MAX_REMOTE_CHALLENGES")
+    guarded = set()
+    for n in ast.walk(conn):
+        if isinstance(n, ast.If) and ast.dump(n.test) == want:
+            for b in n.body:
+                for m in ast.walk(b):
+                    guarded.add(id(m))
+    sites = [n for n in ast.walk(conn) if isinstance(n, ast.Call) and isinstance(n.func, ast.Attribute)
+             and n.func.attr in ("append", "appendleft", "extend", "insert") and _mentions_attr(n.func.value, "remote_challenges")]
+    if not sites or not all(id(n) in guarded for n in sites):
+        raise ValueError("C07 consts: remote_challenges grows outside `if len(...) < MAX_REMOTE_CHALLENGES`")
+    # _local_challenges: assigned only in _add_local_challenge, which then trims `while len(...) > MAX_LOCAL_CHALLENGES`
+    al = _func(conn, "_add_local_challenge")
+    if al is None:
+        raise ValueError("C07 consts: _add_local_challenge not found")
+    inside = {id(m) for m in ast.walk(al)}
+    for n in ast.walk(conn):
+        if isinstance(n, ast.Assign) and any(isinstance(t, ast.Subscript) and _is_self_attr(t.value, "_local_challenges") for t in n.targets):
+            if id(n) not in inside:
+                raise ValueError("C07 consts: _local_challenges is filled outside _add_local_challenge")
+    trims = [n for n in al.body if isinstance(n, ast.While) and ast.dump(n.test) == _expr("len(self._local_challenges) > MAX_LOCAL_CHALLENGES")]
+    sets_ = [n.lineno for n in ast.walk(al) if isinstance(n, ast.Assign)
+             and any(isinstance(t, ast.Subscript) and _is_self_attr(t.value, "_local_challenges") for t in n.targets)]
+    if len(trims) != 1 or not sets_ or not all(l < trims[0].lineno for l in sets_):
+        raise ValueError("C07 consts: _add_local_challenge does not trim to MAX_LOCAL_CHALLENGES after the insertion")
+    # CRYPTO: `if pending > MAX_PENDING_CRYPTO: raise CRYPTO_BUFFER_EXCEEDED` at the top level of the handler, before handle_frame
+    hc = _func(conn, "_handle_crypto_frame")
+    if hc is None:
+        raise ValueError("C07 consts: _handle_crypto_frame not found")
+    chk = [n for n in hc.body if isinstance(n, ast.If) and ast.dump(n.test) == _expr("pending > MAX_PENDING_CRYPTO")
+           and _raises_code(n, "CRYPTO_BUFFER_EXCEEDED")]
+    pend = [n for n in hc.body if isinstance(n, ast.Assign) and len(n.targets) == 1 and isinstance(n.targets[0], ast.Name)
+            and n.targets[0].id == "pending"]
+    hf = [n.lineno for n in ast.walk(hc) if isinstance(n, ast.Call) and isinstance(n.func, ast.Attribute) and n.func.attr == "handle_frame"]
+    if (len(chk) != 1 or len(pend) != 1 or not hf or not all(chk[0].lineno < l for l in hf) or pend[0].lineno > chk[0].lineno
+            or ast.dump(pend[0].value) != _expr("offset + length - stream.receiver.starting_offset()")
+            or any(isinstance(n, ast.Return) and n.lineno < chk[0].lineno for n in ast.walk(hc))):
+        raise ValueError("C07 consts: _handle_crypto_frame: unknown shape of the MAX_PENDING_CRYPTO check")
 
 
 def _func(tree, name):
